@@ -59,3 +59,124 @@ package expr
 //@   ensures ok && e.Op == Implies ==> err == nil && collTV(res) == impT(tvC(l), tvC(r))
 //@   ensures ok && e.Op != And && e.Op != Or && e.Op != Xor && e.Op != Implies ==> is(err, ErrInvalidOperator)
 //@   assigns nothing
+//
+// ---- C08: arithmetic on Integer and Decimal operands ---------------------------------
+//
+//@ func typeMismatch(op, lhs, rhs) (err)
+//@   ensures err != nil && is(err, system.ErrTypeMismatch) && !is(err, system.ErrIntOverflow) && !is(err, system.ErrDivideByZero)
+//@   assigns nothing
+//
+//@ func EvaluateAdd(lhs, rhs) (res, err)
+//@   ensures isInteger(lhs) && isInteger(rhs) && inInt32(intOf(lhs) + intOf(rhs)) ==> err == nil && res == mkInt(intOf(lhs) + intOf(rhs))
+//@   ensures isInteger(lhs) && isInteger(rhs) && !inInt32(intOf(lhs) + intOf(rhs)) ==> is(err, system.ErrIntOverflow)
+//@   ensures isDecimalV(lhs) && isDecimalV(rhs) ==> err == nil && res == mkDec(decOf(lhs) + decOf(rhs))
+//@   ensures isStringV(lhs) && isStringV(rhs) ==> err == nil && res == box(unbox(lhs, system.String) + unbox(rhs, system.String))
+//@   ensures isNum(lhs) && isNum(rhs) && isInteger(lhs) != isInteger(rhs) ==> err != nil && !is(err, system.ErrIntOverflow) && !is(err, system.ErrDivideByZero)
+//@   ensures err == nil ==> res != nil
+//@   assigns nothing
+//
+//@ func EvaluateSub(lhs, rhs) (res, err)
+//@   ensures isInteger(lhs) && isInteger(rhs) && inInt32(intOf(lhs) - intOf(rhs)) ==> err == nil && res == mkInt(intOf(lhs) - intOf(rhs))
+//@   ensures isInteger(lhs) && isInteger(rhs) && !inInt32(intOf(lhs) - intOf(rhs)) ==> is(err, system.ErrIntOverflow)
+//@   ensures isDecimalV(lhs) && isDecimalV(rhs) ==> err == nil && res == mkDec(decOf(lhs) - decOf(rhs))
+//@   ensures isNum(lhs) && isNum(rhs) && isInteger(lhs) != isInteger(rhs) ==> err != nil && !is(err, system.ErrIntOverflow) && !is(err, system.ErrDivideByZero)
+//@   ensures err == nil ==> res != nil
+//@   assigns nothing
+//
+//@ func EvaluateMul(lhs, rhs) (res, err)
+//@   ensures isInteger(lhs) && isInteger(rhs) && inInt32(intOf(lhs) * intOf(rhs)) ==> err == nil && res == mkInt(intOf(lhs) * intOf(rhs))
+//@   ensures isInteger(lhs) && isInteger(rhs) && !inInt32(intOf(lhs) * intOf(rhs)) ==> is(err, system.ErrIntOverflow)
+//@   ensures isDecimalV(lhs) && isDecimalV(rhs) ==> err == nil && res == mkDec(decOf(lhs) * decOf(rhs))
+//@   ensures isNum(lhs) && isNum(rhs) && isInteger(lhs) != isInteger(rhs) ==> err != nil && !is(err, system.ErrIntOverflow) && !is(err, system.ErrDivideByZero)
+//@   ensures err == nil ==> res != nil
+//@   assigns nothing
+//
+// `/`: quotient correct to 16 places; a zero divisor is reported as overflow-to-empty
+//@ func EvaluateDiv(lhs, rhs) (res, err)
+//@   ensures isNum(lhs) && isNum(rhs) && isInteger(lhs) == isInteger(rhs) && numOf(rhs) == 0.0 ==> is(err, system.ErrDivideByZero)
+//@   ensures isNum(lhs) && isNum(rhs) && isInteger(lhs) == isInteger(rhs) && numOf(rhs) != 0.0 ==> err == nil && isDecimalV(res) && absR(decOf(res) - numOf(lhs) / numOf(rhs)) * 20000000000000000.0 <= 1.0
+//@   ensures isNum(lhs) && isNum(rhs) && isInteger(lhs) != isInteger(rhs) ==> err != nil && !is(err, system.ErrIntOverflow) && !is(err, system.ErrDivideByZero)
+//@   ensures err == nil ==> res != nil
+//@   assigns nothing
+//
+// `div`: exact quotient truncated toward zero; zero divisor or a result outside int32 -> overflow-to-empty
+//@ func EvaluateFloorDiv(lhs, rhs) (res, err)
+//@   ensures isInteger(lhs) && isInteger(rhs) && intOf(rhs) == 0 ==> is(err, system.ErrDivideByZero)
+//@   ensures isInteger(lhs) && isInteger(rhs) && intOf(rhs) != 0 && !inInt32(intOf(lhs) / intOf(rhs)) ==> is(err, system.ErrIntOverflow)
+//@   ensures isInteger(lhs) && isInteger(rhs) && intOf(rhs) != 0 && inInt32(intOf(lhs) / intOf(rhs)) ==> err == nil && res == mkInt(intOf(lhs) / intOf(rhs))
+//@   ensures isDecimalV(lhs) && isDecimalV(rhs) && decOf(rhs) == 0.0 ==> is(err, system.ErrDivideByZero)
+//@   ensures isDecimalV(lhs) && isDecimalV(rhs) && decOf(rhs) != 0.0 && !inInt32(truncR(decOf(lhs) / decOf(rhs))) ==> is(err, system.ErrIntOverflow)
+//@   ensures isDecimalV(lhs) && isDecimalV(rhs) && decOf(rhs) != 0.0 && inInt32(truncR(decOf(lhs) / decOf(rhs))) ==> err == nil && res == mkInt(truncR(decOf(lhs) / decOf(rhs)))
+//@   ensures isNum(lhs) && isNum(rhs) && isInteger(lhs) != isInteger(rhs) ==> err != nil && !is(err, system.ErrIntOverflow) && !is(err, system.ErrDivideByZero)
+//@   ensures err == nil ==> res != nil
+//@   assigns nothing
+//
+// `mod`: a == (a div b)*b + (a mod b); zero divisor -> overflow-to-empty
+//@ func EvaluateMod(lhs, rhs) (res, err)
+//@   ensures isInteger(lhs) && isInteger(rhs) && intOf(rhs) == 0 ==> is(err, system.ErrDivideByZero)
+//@   ensures isInteger(lhs) && isInteger(rhs) && intOf(rhs) != 0 ==> err == nil && isInteger(res) && intOf(lhs) == (intOf(lhs) / intOf(rhs)) * intOf(rhs) + intOf(res)
+//@   ensures isDecimalV(lhs) && isDecimalV(rhs) && decOf(rhs) == 0.0 ==> is(err, system.ErrDivideByZero)
+//@   ensures isDecimalV(lhs) && isDecimalV(rhs) && decOf(rhs) != 0.0 ==> err == nil && isDecimalV(res) && decOf(lhs) == real(truncR(decOf(lhs) / decOf(rhs))) * decOf(rhs) + decOf(res)
+//@   ensures isNum(lhs) && isNum(rhs) && isInteger(lhs) != isInteger(rhs) ==> err != nil && !is(err, system.ErrIntOverflow) && !is(err, system.ErrDivideByZero)
+//@   ensures err == nil ==> res != nil
+//@   assigns nothing
+//
+//@ func isZeroDecimal(d) (res)
+//@   ensures res == (d == 0.0)
+//@   assigns nothing
+//
+// wf(node): the operator of an arithmetic node is one of the six Evaluate* functions
+//@ field ArithmeticExpression.Op
+//@   candidates EvaluateAdd, EvaluateSub, EvaluateMul, EvaluateDiv, EvaluateFloorDiv, EvaluateMod
+//
+// C08 at the operator node: singleton operands, Integers promoted when mixed; the exact
+// result, or empty on Integer overflow and on division by zero. a and b are the operands
+// as System values (system.From of the single item of each side).
+//@ func (e *ArithmeticExpression) Evaluate(ctx, input) (res, err)
+//@   requires e != nil && ctx != nil && e.Left != nil && e.Right != nil
+//@   requires e.Op == EvaluateAdd || e.Op == EvaluateSub || e.Op == EvaluateMul || e.Op == EvaluateDiv || e.Op == EvaluateFloorDiv || e.Op == EvaluateMod
+//@   let K = ctx.ExternalConstants
+//@   let N = ctx.Now
+//@   let l = evalRes(e.Left, K, N, input)
+//@   let r = evalRes(e.Right, K, N, input)
+//@   let lerr = evalErr(e.Left, K, N, input)
+//@   let rerr = evalErr(e.Right, K, N, input)
+//@   let a = fromS(l[0])
+//@   let b = fromS(r[0])
+//@   let num = lerr == nil && rerr == nil && len(l) == 1 && len(r) == 1 && fromOk(l[0]) && fromOk(r[0]) && isNum(a) && isNum(b)
+//@   let ints = num && isInteger(a) && isInteger(b)
+//@   let decs = num && !(isInteger(a) && isInteger(b))
+//@   ensures lerr != nil || rerr != nil ==> err != nil
+//@   ensures lerr == nil && rerr == nil && (len(l) == 0 || len(r) == 0) ==> err == nil && len(res) == 0
+//@   ensures lerr == nil && rerr == nil && len(l) > 0 && len(r) > 0 && (len(l) > 1 || len(r) > 1) ==> is(err, ErrNotSingleton)
+//@   ensures num ==> err == nil && len(res) <= 1
+//@   ensures ints && e.Op == EvaluateAdd ==> (inInt32(intOf(a) + intOf(b)) ==> len(res) == 1 && res[0] == mkInt(intOf(a) + intOf(b))) && (!inInt32(intOf(a) + intOf(b)) ==> len(res) == 0)
+//@   ensures ints && e.Op == EvaluateSub ==> (inInt32(intOf(a) - intOf(b)) ==> len(res) == 1 && res[0] == mkInt(intOf(a) - intOf(b))) && (!inInt32(intOf(a) - intOf(b)) ==> len(res) == 0)
+//@   ensures ints && e.Op == EvaluateMul ==> (inInt32(intOf(a) * intOf(b)) ==> len(res) == 1 && res[0] == mkInt(intOf(a) * intOf(b))) && (!inInt32(intOf(a) * intOf(b)) ==> len(res) == 0)
+//@   ensures decs && e.Op == EvaluateAdd ==> len(res) == 1 && res[0] == mkDec(numOf(a) + numOf(b))
+//@   ensures decs && e.Op == EvaluateSub ==> len(res) == 1 && res[0] == mkDec(numOf(a) - numOf(b))
+//@   ensures decs && e.Op == EvaluateMul ==> len(res) == 1 && res[0] == mkDec(numOf(a) * numOf(b))
+//@   ensures num && e.Op == EvaluateDiv && numOf(b) == 0.0 ==> len(res) == 0
+//@   ensures num && e.Op == EvaluateDiv && numOf(b) != 0.0 ==> len(res) == 1 && isDecimalV(res[0]) && absR(decOf(res[0]) - numOf(a) / numOf(b)) * 20000000000000000.0 <= 1.0
+//@   ensures ints && e.Op == EvaluateFloorDiv ==> (intOf(b) != 0 && inInt32(intOf(a) / intOf(b)) ==> len(res) == 1 && res[0] == mkInt(intOf(a) / intOf(b))) && (intOf(b) == 0 || !inInt32(intOf(a) / intOf(b)) ==> len(res) == 0)
+//@   ensures decs && e.Op == EvaluateFloorDiv ==> (numOf(b) != 0.0 && inInt32(truncR(numOf(a) / numOf(b))) ==> len(res) == 1 && res[0] == mkInt(truncR(numOf(a) / numOf(b)))) && (numOf(b) == 0.0 || !inInt32(truncR(numOf(a) / numOf(b))) ==> len(res) == 0)
+//@   ensures ints && e.Op == EvaluateMod ==> (intOf(b) == 0 ==> len(res) == 0) && (intOf(b) != 0 ==> len(res) == 1 && isInteger(res[0]) && intOf(a) == (intOf(a) / intOf(b)) * intOf(b) + intOf(res[0]))
+//@   ensures decs && e.Op == EvaluateMod ==> (numOf(b) == 0.0 ==> len(res) == 0) && (numOf(b) != 0.0 ==> len(res) == 1 && isDecimalV(res[0]) && numOf(a) == real(truncR(numOf(a) / numOf(b))) * numOf(b) + decOf(res[0]))
+//@   assigns nothing
+//
+// unary minus: exact, or empty when the result does not fit an Integer (-MinInt32)
+//@ func (e *NegationExpression) Evaluate(ctx, input) (res, err)
+//@   requires e != nil && ctx != nil && e.Expr != nil
+//@   let K = ctx.ExternalConstants
+//@   let N = ctx.Now
+//@   let l = evalRes(e.Expr, K, N, input)
+//@   let lerr = evalErr(e.Expr, K, N, input)
+//@   let a = fromS(l[0])
+//@   ensures lerr != nil ==> err != nil
+//@   ensures lerr == nil && len(l) == 0 ==> err == nil && len(res) == 0
+//@   ensures lerr == nil && len(l) > 1 ==> is(err, ErrNotSingleton)
+//@   ensures lerr == nil && len(l) == 1 && fromOk(l[0]) && isInteger(a) && inInt32(0 - intOf(a)) ==> err == nil && len(res) == 1 && res[0] == mkInt(0 - intOf(a))
+//@   ensures lerr == nil && len(l) == 1 && fromOk(l[0]) && isInteger(a) && !inInt32(0 - intOf(a)) ==> err == nil && len(res) == 0
+//@   ensures lerr == nil && len(l) == 1 && fromOk(l[0]) && isDecimalV(a) ==> err == nil && len(res) == 1 && res[0] == mkDec(0.0 - decOf(a))
+//@   ensures lerr == nil && len(l) == 1 && !fromOk(l[0]) ==> is(err, ErrInvalidType)
+//@   assigns nothing
